@@ -15,7 +15,7 @@ def _names():
 class _C06(Spec):
     pid = "C06"
     lean_module = "Starcal.Props.C06"
-    src_ties = ["Starcal.SrcTie.All"]
+    src_ties = ["Starcal.SrcTie.All", "Starcal.SrcTie.HijriTable"]
     expected = "A->A is the identity, A->B->A returns the date, A->B->C = A->C, by-name results equal the per-calendar functions; default state and any switch history work; unknown names give an error, never a panic or nil"
     rule = ("line protocol `byname conv <history> A B C jd`: the date of day jd in A through the by-name API, then A->A, A->B, back, A->C, B->C(A->B). Streams: every ordered pair "
             "(A,B) of registered names (C cycling) over a 400-year window (every 97th day quick, every 7th thorough) in the default configuration; every toggle history of length <=4 "
@@ -190,7 +190,7 @@ register(_C06())
 class _C20(Spec):
     pid = "C20"
     lean_module = "Starcal.Props.C20"
-    src_ties = ["Starcal.SrcTie.All"]
+    src_ties = ["Starcal.SrcTie.All", "Starcal.SrcTie.HijriTable"]
     src_overflow = ["Starcal.SrcTie.NoOverflow"]
     expected = "distinct names, lookup returns the same calendar, 12 month names and abbreviations, every reported month length within [MinMonthLen, MaxMonthLen], AvgYearLen within 0.01 of the mean year length"
     rule = ("regenerated facts: Gen/CalMeta.lean and Gen/CalTables.lean are rewritten from /repo (go/ast constants = running registry) and the C20 theorems are re-proved over them; "
